@@ -64,6 +64,24 @@ def run_batch(job):
         h.register_stream_function(*PROBES["probe-none"], p_none)
         h.register_stream_function(*PROBES["probe-raise"], p_raise)
         probe_of = {v: k for k, v in PROBES.items()}
+        if bid % 3 == 0:
+            # the application registers its own callbacks for two functions the handler has built-in handlers for
+            names = [n[4:] for n in dir(h) if n.startswith("_on_s") and len(n) == 10 and n[4:] in h.callbacks]      # built-in handlers
+            have = sorted((int(n[1:3]), int(n[4:6])) for n in names if n[3] == "f" and n[1:3].isdigit() and n[4:6].isdigit()
+                          and (int(n[1:3]), int(n[4:6])) not in ((1, 13), (1, 14)) and int(n[4:6]) % 2 == 1)
+            have = [sf for sf in have if h.settings.streams_functions.function(sf[0], sf[1] + 1) is not None][:2]
+            if len(have) == 2:
+                def o_self(handler, message):
+                    if message.header.require_response:
+                        handler.send_response(handler.stream_function(message.header.stream, message.header.function + 1)(), message.header.system)
+
+                def o_none(handler, message):
+                    return None
+
+                h.register_stream_function(have[0][0], have[0][1], o_self)
+                h.register_stream_function(have[1][0], have[1][1], o_none)
+                probe_of[have[0]] = "override-selfreply"
+                probe_of[have[1]] = "override-none"
         # history: system bytes the handler itself used before -- one transaction of its own that timed out (T3), one
         # that was answered.  A peer is free to pick the same values for its primaries later on.
         own = []
